@@ -44,7 +44,8 @@ META = dict(
           "pattern) cases that executed inside instrumented kernel code "
           "(returned or raised after the call was dispatched)."),
     floors={"quick": {"cases_run": 1500, "families_done": len(FAMILIES)},
-            "thorough": {"cases_run": 6000, "families_done": len(FAMILIES)}},
+            "thorough": {"cases_run": 12000,
+                         "families_done": len(FAMILIES)}},
     assumptions=[
         "ASan sees heap/stack/global red-zone overflows and use-after-free; "
         "intra-object overflows and uninitialised reads are out of reach "
@@ -859,15 +860,23 @@ def run(ctx):
     ctx.note(f"family_of_shard_{ctx.shard}", fam)
     import pyunicorn.core._ext.numerics as k
     ctx.note("kernel_file", k.__file__)
-    cases = FAM_FUNCS[fam](ctx)
+    base_rng = ctx.rng
+    passes = 4 if ctx.thorough else 1
 
     def limited():
-        for i, c in enumerate(cases):
-            if ctx.time_left() <= 0:
-                ctx.count("budget_truncated_families")
-                break
-            yield c
+        # thorough: the same entry-point table is walked several times with
+        # different random contents / random sizes (the pass number salts
+        # every generator and is part of the case id)
+        for pno in range(passes):
+            ctx.rng = (lambda *k, _p=pno: base_rng(*k, "pass", _p)) \
+                if pno else base_rng
+            for cid, thunk in FAM_FUNCS[fam](ctx):
+                if ctx.time_left() <= 0:
+                    ctx.count("budget_truncated_families")
+                    return
+                yield (cid if not pno else f"{cid}#p{pno}"), thunk
     run_cases(ctx, limited())
+    ctx.rng = base_rng
 
 
 def post(m, results, san_logs):
